@@ -605,3 +605,1443 @@ package writer
 //@   ensures[C12] w.err == nil ==> STK6(w)
 //@   ensures[C12] w.err == nil ==> STK7(w)
 //@   ensures[C12] STICKY(w, err)
+
+// ---- construction
+
+// Pool invariant (assumed here, established elsewhere): a state obtained from the pool is either
+// freshly constructed or was released through releaseWriterState, whose generated reset
+// obligations (C18) show that every field is cleared - in particular both release flags.
+//@ func acquireWriterState
+//@   trusted
+//@   modifies pools.*
+//@   ensures result != nil && !result.releaseWriter && !result.releaseState
+
+//@ func newField
+//@   safety[C12]
+//@   ensures result.w == w && result.tag == tag
+
+// ---- handles (generated by /verif/tools/gen_writer_contracts.py)
+
+//@ func (ValueWriter).Build
+//@   safety[C12]
+//@   requires WI(w.w)
+//@   requires w.w.err == nil ==> STK1(w.w)
+//@   requires w.w.err == nil ==> STK2(w.w)
+//@   requires w.w.err == nil ==> STK3(w.w)
+//@   requires w.w.err == nil ==> STK4(w.w)
+//@   requires w.w.err == nil ==> STK5(w.w)
+//@   requires w.w.err == nil ==> STK6(w.w)
+//@   requires w.w.err == nil ==> STK7(w.w)
+//@   modifies @WRITER
+//@   modifies @BUF
+//@   ensures[C12] WI(w.w)
+//@   ensures[C12] w.w.err == nil ==> STK1(w.w)
+//@   ensures[C12] w.w.err == nil ==> STK2(w.w)
+//@   ensures[C12] w.w.err == nil ==> STK3(w.w)
+//@   ensures[C12] w.w.err == nil ==> STK4(w.w)
+//@   ensures[C12] w.w.err == nil ==> STK5(w.w)
+//@   ensures[C12] w.w.err == nil ==> STK6(w.w)
+//@   ensures[C12] w.w.err == nil ==> STK7(w.w)
+//@   ensures[C12] STICKY(w.w, result1)
+
+//@ func (ValueWriter).Any
+//@   safety[C12]
+//@   requires WI(w.w)
+//@   requires w.w.err == nil ==> STK1(w.w)
+//@   requires w.w.err == nil ==> STK2(w.w)
+//@   requires w.w.err == nil ==> STK3(w.w)
+//@   requires w.w.err == nil ==> STK4(w.w)
+//@   requires w.w.err == nil ==> STK5(w.w)
+//@   requires w.w.err == nil ==> STK6(w.w)
+//@   requires w.w.err == nil ==> STK7(w.w)
+//@   modifies @WRITER
+//@   modifies @BUF
+//@   ensures[C12] WI(w.w)
+//@   ensures[C12] w.w.err == nil ==> STK1(w.w)
+//@   ensures[C12] w.w.err == nil ==> STK2(w.w)
+//@   ensures[C12] w.w.err == nil ==> STK3(w.w)
+//@   ensures[C12] w.w.err == nil ==> STK4(w.w)
+//@   ensures[C12] w.w.err == nil ==> STK5(w.w)
+//@   ensures[C12] w.w.err == nil ==> STK6(w.w)
+//@   ensures[C12] w.w.err == nil ==> STK7(w.w)
+//@   ensures[C12] STICKY(w.w, result)
+
+//@ func (ValueWriter).Bool
+//@   safety[C12]
+//@   requires WI(w.w)
+//@   requires w.w.err == nil ==> STK1(w.w)
+//@   requires w.w.err == nil ==> STK2(w.w)
+//@   requires w.w.err == nil ==> STK3(w.w)
+//@   requires w.w.err == nil ==> STK4(w.w)
+//@   requires w.w.err == nil ==> STK5(w.w)
+//@   requires w.w.err == nil ==> STK6(w.w)
+//@   requires w.w.err == nil ==> STK7(w.w)
+//@   modifies @WRITER
+//@   modifies @BUF
+//@   ensures[C12] WI(w.w)
+//@   ensures[C12] w.w.err == nil ==> STK1(w.w)
+//@   ensures[C12] w.w.err == nil ==> STK2(w.w)
+//@   ensures[C12] w.w.err == nil ==> STK3(w.w)
+//@   ensures[C12] w.w.err == nil ==> STK4(w.w)
+//@   ensures[C12] w.w.err == nil ==> STK5(w.w)
+//@   ensures[C12] w.w.err == nil ==> STK6(w.w)
+//@   ensures[C12] w.w.err == nil ==> STK7(w.w)
+//@   ensures[C12] STICKY(w.w, result)
+
+//@ func (ValueWriter).Byte
+//@   safety[C12]
+//@   requires WI(w.w)
+//@   requires w.w.err == nil ==> STK1(w.w)
+//@   requires w.w.err == nil ==> STK2(w.w)
+//@   requires w.w.err == nil ==> STK3(w.w)
+//@   requires w.w.err == nil ==> STK4(w.w)
+//@   requires w.w.err == nil ==> STK5(w.w)
+//@   requires w.w.err == nil ==> STK6(w.w)
+//@   requires w.w.err == nil ==> STK7(w.w)
+//@   modifies @WRITER
+//@   modifies @BUF
+//@   ensures[C12] WI(w.w)
+//@   ensures[C12] w.w.err == nil ==> STK1(w.w)
+//@   ensures[C12] w.w.err == nil ==> STK2(w.w)
+//@   ensures[C12] w.w.err == nil ==> STK3(w.w)
+//@   ensures[C12] w.w.err == nil ==> STK4(w.w)
+//@   ensures[C12] w.w.err == nil ==> STK5(w.w)
+//@   ensures[C12] w.w.err == nil ==> STK6(w.w)
+//@   ensures[C12] w.w.err == nil ==> STK7(w.w)
+//@   ensures[C12] STICKY(w.w, result)
+
+//@ func (ValueWriter).Int16
+//@   safety[C12]
+//@   requires WI(w.w)
+//@   requires w.w.err == nil ==> STK1(w.w)
+//@   requires w.w.err == nil ==> STK2(w.w)
+//@   requires w.w.err == nil ==> STK3(w.w)
+//@   requires w.w.err == nil ==> STK4(w.w)
+//@   requires w.w.err == nil ==> STK5(w.w)
+//@   requires w.w.err == nil ==> STK6(w.w)
+//@   requires w.w.err == nil ==> STK7(w.w)
+//@   modifies @WRITER
+//@   modifies @BUF
+//@   ensures[C12] WI(w.w)
+//@   ensures[C12] w.w.err == nil ==> STK1(w.w)
+//@   ensures[C12] w.w.err == nil ==> STK2(w.w)
+//@   ensures[C12] w.w.err == nil ==> STK3(w.w)
+//@   ensures[C12] w.w.err == nil ==> STK4(w.w)
+//@   ensures[C12] w.w.err == nil ==> STK5(w.w)
+//@   ensures[C12] w.w.err == nil ==> STK6(w.w)
+//@   ensures[C12] w.w.err == nil ==> STK7(w.w)
+//@   ensures[C12] STICKY(w.w, result)
+
+//@ func (ValueWriter).Int32
+//@   safety[C12]
+//@   requires WI(w.w)
+//@   requires w.w.err == nil ==> STK1(w.w)
+//@   requires w.w.err == nil ==> STK2(w.w)
+//@   requires w.w.err == nil ==> STK3(w.w)
+//@   requires w.w.err == nil ==> STK4(w.w)
+//@   requires w.w.err == nil ==> STK5(w.w)
+//@   requires w.w.err == nil ==> STK6(w.w)
+//@   requires w.w.err == nil ==> STK7(w.w)
+//@   modifies @WRITER
+//@   modifies @BUF
+//@   ensures[C12] WI(w.w)
+//@   ensures[C12] w.w.err == nil ==> STK1(w.w)
+//@   ensures[C12] w.w.err == nil ==> STK2(w.w)
+//@   ensures[C12] w.w.err == nil ==> STK3(w.w)
+//@   ensures[C12] w.w.err == nil ==> STK4(w.w)
+//@   ensures[C12] w.w.err == nil ==> STK5(w.w)
+//@   ensures[C12] w.w.err == nil ==> STK6(w.w)
+//@   ensures[C12] w.w.err == nil ==> STK7(w.w)
+//@   ensures[C12] STICKY(w.w, result)
+
+//@ func (ValueWriter).Int64
+//@   safety[C12]
+//@   requires WI(w.w)
+//@   requires w.w.err == nil ==> STK1(w.w)
+//@   requires w.w.err == nil ==> STK2(w.w)
+//@   requires w.w.err == nil ==> STK3(w.w)
+//@   requires w.w.err == nil ==> STK4(w.w)
+//@   requires w.w.err == nil ==> STK5(w.w)
+//@   requires w.w.err == nil ==> STK6(w.w)
+//@   requires w.w.err == nil ==> STK7(w.w)
+//@   modifies @WRITER
+//@   modifies @BUF
+//@   ensures[C12] WI(w.w)
+//@   ensures[C12] w.w.err == nil ==> STK1(w.w)
+//@   ensures[C12] w.w.err == nil ==> STK2(w.w)
+//@   ensures[C12] w.w.err == nil ==> STK3(w.w)
+//@   ensures[C12] w.w.err == nil ==> STK4(w.w)
+//@   ensures[C12] w.w.err == nil ==> STK5(w.w)
+//@   ensures[C12] w.w.err == nil ==> STK6(w.w)
+//@   ensures[C12] w.w.err == nil ==> STK7(w.w)
+//@   ensures[C12] STICKY(w.w, result)
+
+//@ func (ValueWriter).Uint16
+//@   safety[C12]
+//@   requires WI(w.w)
+//@   requires w.w.err == nil ==> STK1(w.w)
+//@   requires w.w.err == nil ==> STK2(w.w)
+//@   requires w.w.err == nil ==> STK3(w.w)
+//@   requires w.w.err == nil ==> STK4(w.w)
+//@   requires w.w.err == nil ==> STK5(w.w)
+//@   requires w.w.err == nil ==> STK6(w.w)
+//@   requires w.w.err == nil ==> STK7(w.w)
+//@   modifies @WRITER
+//@   modifies @BUF
+//@   ensures[C12] WI(w.w)
+//@   ensures[C12] w.w.err == nil ==> STK1(w.w)
+//@   ensures[C12] w.w.err == nil ==> STK2(w.w)
+//@   ensures[C12] w.w.err == nil ==> STK3(w.w)
+//@   ensures[C12] w.w.err == nil ==> STK4(w.w)
+//@   ensures[C12] w.w.err == nil ==> STK5(w.w)
+//@   ensures[C12] w.w.err == nil ==> STK6(w.w)
+//@   ensures[C12] w.w.err == nil ==> STK7(w.w)
+//@   ensures[C12] STICKY(w.w, result)
+
+//@ func (ValueWriter).Uint32
+//@   safety[C12]
+//@   requires WI(w.w)
+//@   requires w.w.err == nil ==> STK1(w.w)
+//@   requires w.w.err == nil ==> STK2(w.w)
+//@   requires w.w.err == nil ==> STK3(w.w)
+//@   requires w.w.err == nil ==> STK4(w.w)
+//@   requires w.w.err == nil ==> STK5(w.w)
+//@   requires w.w.err == nil ==> STK6(w.w)
+//@   requires w.w.err == nil ==> STK7(w.w)
+//@   modifies @WRITER
+//@   modifies @BUF
+//@   ensures[C12] WI(w.w)
+//@   ensures[C12] w.w.err == nil ==> STK1(w.w)
+//@   ensures[C12] w.w.err == nil ==> STK2(w.w)
+//@   ensures[C12] w.w.err == nil ==> STK3(w.w)
+//@   ensures[C12] w.w.err == nil ==> STK4(w.w)
+//@   ensures[C12] w.w.err == nil ==> STK5(w.w)
+//@   ensures[C12] w.w.err == nil ==> STK6(w.w)
+//@   ensures[C12] w.w.err == nil ==> STK7(w.w)
+//@   ensures[C12] STICKY(w.w, result)
+
+//@ func (ValueWriter).Uint64
+//@   safety[C12]
+//@   requires WI(w.w)
+//@   requires w.w.err == nil ==> STK1(w.w)
+//@   requires w.w.err == nil ==> STK2(w.w)
+//@   requires w.w.err == nil ==> STK3(w.w)
+//@   requires w.w.err == nil ==> STK4(w.w)
+//@   requires w.w.err == nil ==> STK5(w.w)
+//@   requires w.w.err == nil ==> STK6(w.w)
+//@   requires w.w.err == nil ==> STK7(w.w)
+//@   modifies @WRITER
+//@   modifies @BUF
+//@   ensures[C12] WI(w.w)
+//@   ensures[C12] w.w.err == nil ==> STK1(w.w)
+//@   ensures[C12] w.w.err == nil ==> STK2(w.w)
+//@   ensures[C12] w.w.err == nil ==> STK3(w.w)
+//@   ensures[C12] w.w.err == nil ==> STK4(w.w)
+//@   ensures[C12] w.w.err == nil ==> STK5(w.w)
+//@   ensures[C12] w.w.err == nil ==> STK6(w.w)
+//@   ensures[C12] w.w.err == nil ==> STK7(w.w)
+//@   ensures[C12] STICKY(w.w, result)
+
+//@ func (ValueWriter).Bin64
+//@   safety[C12]
+//@   requires WI(w.w)
+//@   requires w.w.err == nil ==> STK1(w.w)
+//@   requires w.w.err == nil ==> STK2(w.w)
+//@   requires w.w.err == nil ==> STK3(w.w)
+//@   requires w.w.err == nil ==> STK4(w.w)
+//@   requires w.w.err == nil ==> STK5(w.w)
+//@   requires w.w.err == nil ==> STK6(w.w)
+//@   requires w.w.err == nil ==> STK7(w.w)
+//@   modifies @WRITER
+//@   modifies @BUF
+//@   ensures[C12] WI(w.w)
+//@   ensures[C12] w.w.err == nil ==> STK1(w.w)
+//@   ensures[C12] w.w.err == nil ==> STK2(w.w)
+//@   ensures[C12] w.w.err == nil ==> STK3(w.w)
+//@   ensures[C12] w.w.err == nil ==> STK4(w.w)
+//@   ensures[C12] w.w.err == nil ==> STK5(w.w)
+//@   ensures[C12] w.w.err == nil ==> STK6(w.w)
+//@   ensures[C12] w.w.err == nil ==> STK7(w.w)
+//@   ensures[C12] STICKY(w.w, result)
+
+//@ func (ValueWriter).Bin128
+//@   safety[C12]
+//@   requires WI(w.w)
+//@   requires w.w.err == nil ==> STK1(w.w)
+//@   requires w.w.err == nil ==> STK2(w.w)
+//@   requires w.w.err == nil ==> STK3(w.w)
+//@   requires w.w.err == nil ==> STK4(w.w)
+//@   requires w.w.err == nil ==> STK5(w.w)
+//@   requires w.w.err == nil ==> STK6(w.w)
+//@   requires w.w.err == nil ==> STK7(w.w)
+//@   modifies @WRITER
+//@   modifies @BUF
+//@   ensures[C12] WI(w.w)
+//@   ensures[C12] w.w.err == nil ==> STK1(w.w)
+//@   ensures[C12] w.w.err == nil ==> STK2(w.w)
+//@   ensures[C12] w.w.err == nil ==> STK3(w.w)
+//@   ensures[C12] w.w.err == nil ==> STK4(w.w)
+//@   ensures[C12] w.w.err == nil ==> STK5(w.w)
+//@   ensures[C12] w.w.err == nil ==> STK6(w.w)
+//@   ensures[C12] w.w.err == nil ==> STK7(w.w)
+//@   ensures[C12] STICKY(w.w, result)
+
+//@ func (ValueWriter).Bin256
+//@   safety[C12]
+//@   requires WI(w.w)
+//@   requires w.w.err == nil ==> STK1(w.w)
+//@   requires w.w.err == nil ==> STK2(w.w)
+//@   requires w.w.err == nil ==> STK3(w.w)
+//@   requires w.w.err == nil ==> STK4(w.w)
+//@   requires w.w.err == nil ==> STK5(w.w)
+//@   requires w.w.err == nil ==> STK6(w.w)
+//@   requires w.w.err == nil ==> STK7(w.w)
+//@   modifies @WRITER
+//@   modifies @BUF
+//@   ensures[C12] WI(w.w)
+//@   ensures[C12] w.w.err == nil ==> STK1(w.w)
+//@   ensures[C12] w.w.err == nil ==> STK2(w.w)
+//@   ensures[C12] w.w.err == nil ==> STK3(w.w)
+//@   ensures[C12] w.w.err == nil ==> STK4(w.w)
+//@   ensures[C12] w.w.err == nil ==> STK5(w.w)
+//@   ensures[C12] w.w.err == nil ==> STK6(w.w)
+//@   ensures[C12] w.w.err == nil ==> STK7(w.w)
+//@   ensures[C12] STICKY(w.w, result)
+
+//@ func (ValueWriter).Float32
+//@   safety[C12]
+//@   requires WI(w.w)
+//@   requires w.w.err == nil ==> STK1(w.w)
+//@   requires w.w.err == nil ==> STK2(w.w)
+//@   requires w.w.err == nil ==> STK3(w.w)
+//@   requires w.w.err == nil ==> STK4(w.w)
+//@   requires w.w.err == nil ==> STK5(w.w)
+//@   requires w.w.err == nil ==> STK6(w.w)
+//@   requires w.w.err == nil ==> STK7(w.w)
+//@   modifies @WRITER
+//@   modifies @BUF
+//@   ensures[C12] WI(w.w)
+//@   ensures[C12] w.w.err == nil ==> STK1(w.w)
+//@   ensures[C12] w.w.err == nil ==> STK2(w.w)
+//@   ensures[C12] w.w.err == nil ==> STK3(w.w)
+//@   ensures[C12] w.w.err == nil ==> STK4(w.w)
+//@   ensures[C12] w.w.err == nil ==> STK5(w.w)
+//@   ensures[C12] w.w.err == nil ==> STK6(w.w)
+//@   ensures[C12] w.w.err == nil ==> STK7(w.w)
+//@   ensures[C12] STICKY(w.w, result)
+
+//@ func (ValueWriter).Float64
+//@   safety[C12]
+//@   requires WI(w.w)
+//@   requires w.w.err == nil ==> STK1(w.w)
+//@   requires w.w.err == nil ==> STK2(w.w)
+//@   requires w.w.err == nil ==> STK3(w.w)
+//@   requires w.w.err == nil ==> STK4(w.w)
+//@   requires w.w.err == nil ==> STK5(w.w)
+//@   requires w.w.err == nil ==> STK6(w.w)
+//@   requires w.w.err == nil ==> STK7(w.w)
+//@   modifies @WRITER
+//@   modifies @BUF
+//@   ensures[C12] WI(w.w)
+//@   ensures[C12] w.w.err == nil ==> STK1(w.w)
+//@   ensures[C12] w.w.err == nil ==> STK2(w.w)
+//@   ensures[C12] w.w.err == nil ==> STK3(w.w)
+//@   ensures[C12] w.w.err == nil ==> STK4(w.w)
+//@   ensures[C12] w.w.err == nil ==> STK5(w.w)
+//@   ensures[C12] w.w.err == nil ==> STK6(w.w)
+//@   ensures[C12] w.w.err == nil ==> STK7(w.w)
+//@   ensures[C12] STICKY(w.w, result)
+
+//@ func (ValueWriter).Bytes
+//@   safety[C12]
+//@   requires WI(w.w)
+//@   requires w.w.err == nil ==> STK1(w.w)
+//@   requires w.w.err == nil ==> STK2(w.w)
+//@   requires w.w.err == nil ==> STK3(w.w)
+//@   requires w.w.err == nil ==> STK4(w.w)
+//@   requires w.w.err == nil ==> STK5(w.w)
+//@   requires w.w.err == nil ==> STK6(w.w)
+//@   requires w.w.err == nil ==> STK7(w.w)
+//@   modifies @WRITER
+//@   modifies @BUF
+//@   ensures[C12] WI(w.w)
+//@   ensures[C12] w.w.err == nil ==> STK1(w.w)
+//@   ensures[C12] w.w.err == nil ==> STK2(w.w)
+//@   ensures[C12] w.w.err == nil ==> STK3(w.w)
+//@   ensures[C12] w.w.err == nil ==> STK4(w.w)
+//@   ensures[C12] w.w.err == nil ==> STK5(w.w)
+//@   ensures[C12] w.w.err == nil ==> STK6(w.w)
+//@   ensures[C12] w.w.err == nil ==> STK7(w.w)
+//@   ensures[C12] STICKY(w.w, result)
+
+//@ func (ValueWriter).String
+//@   safety[C12]
+//@   requires WI(w.w)
+//@   requires w.w.err == nil ==> STK1(w.w)
+//@   requires w.w.err == nil ==> STK2(w.w)
+//@   requires w.w.err == nil ==> STK3(w.w)
+//@   requires w.w.err == nil ==> STK4(w.w)
+//@   requires w.w.err == nil ==> STK5(w.w)
+//@   requires w.w.err == nil ==> STK6(w.w)
+//@   requires w.w.err == nil ==> STK7(w.w)
+//@   modifies @WRITER
+//@   modifies @BUF
+//@   ensures[C12] WI(w.w)
+//@   ensures[C12] w.w.err == nil ==> STK1(w.w)
+//@   ensures[C12] w.w.err == nil ==> STK2(w.w)
+//@   ensures[C12] w.w.err == nil ==> STK3(w.w)
+//@   ensures[C12] w.w.err == nil ==> STK4(w.w)
+//@   ensures[C12] w.w.err == nil ==> STK5(w.w)
+//@   ensures[C12] w.w.err == nil ==> STK6(w.w)
+//@   ensures[C12] w.w.err == nil ==> STK7(w.w)
+//@   ensures[C12] STICKY(w.w, result)
+
+//@ func (ValueWriter).List
+//@   safety[C12]
+//@   requires WI(w.w)
+//@   requires w.w.err == nil ==> STK1(w.w)
+//@   requires w.w.err == nil ==> STK2(w.w)
+//@   requires w.w.err == nil ==> STK3(w.w)
+//@   requires w.w.err == nil ==> STK4(w.w)
+//@   requires w.w.err == nil ==> STK5(w.w)
+//@   requires w.w.err == nil ==> STK6(w.w)
+//@   requires w.w.err == nil ==> STK7(w.w)
+//@   modifies @WRITER
+//@   modifies @BUF
+//@   ensures[C12] WI(w.w)
+//@   ensures[C12] w.w.err == nil ==> STK1(w.w)
+//@   ensures[C12] w.w.err == nil ==> STK2(w.w)
+//@   ensures[C12] w.w.err == nil ==> STK3(w.w)
+//@   ensures[C12] w.w.err == nil ==> STK4(w.w)
+//@   ensures[C12] w.w.err == nil ==> STK5(w.w)
+//@   ensures[C12] w.w.err == nil ==> STK6(w.w)
+//@   ensures[C12] w.w.err == nil ==> STK7(w.w)
+//@   ensures[C12] old(w.w.err) != nil ==> w.w.err == old(w.w.err)
+//@   ensures[C12] result.w == w.w
+
+//@ func (ValueWriter).Message
+//@   safety[C12]
+//@   requires WI(w.w)
+//@   requires w.w.err == nil ==> STK1(w.w)
+//@   requires w.w.err == nil ==> STK2(w.w)
+//@   requires w.w.err == nil ==> STK3(w.w)
+//@   requires w.w.err == nil ==> STK4(w.w)
+//@   requires w.w.err == nil ==> STK5(w.w)
+//@   requires w.w.err == nil ==> STK6(w.w)
+//@   requires w.w.err == nil ==> STK7(w.w)
+//@   modifies @WRITER
+//@   modifies @BUF
+//@   ensures[C12] WI(w.w)
+//@   ensures[C12] w.w.err == nil ==> STK1(w.w)
+//@   ensures[C12] w.w.err == nil ==> STK2(w.w)
+//@   ensures[C12] w.w.err == nil ==> STK3(w.w)
+//@   ensures[C12] w.w.err == nil ==> STK4(w.w)
+//@   ensures[C12] w.w.err == nil ==> STK5(w.w)
+//@   ensures[C12] w.w.err == nil ==> STK6(w.w)
+//@   ensures[C12] w.w.err == nil ==> STK7(w.w)
+//@   ensures[C12] old(w.w.err) != nil ==> w.w.err == old(w.w.err)
+//@   ensures[C12] result.w == w.w
+
+//@ func (ListWriter).Err
+//@   safety[C12]
+//@   requires WI(l.w)
+//@   requires l.w.err == nil ==> STK1(l.w)
+//@   requires l.w.err == nil ==> STK2(l.w)
+//@   requires l.w.err == nil ==> STK3(l.w)
+//@   requires l.w.err == nil ==> STK4(l.w)
+//@   requires l.w.err == nil ==> STK5(l.w)
+//@   requires l.w.err == nil ==> STK6(l.w)
+//@   requires l.w.err == nil ==> STK7(l.w)
+//@   ensures result == l.w.err
+
+//@ func (ListWriter).Len
+//@   safety[C12]
+//@   requires WI(l.w)
+//@   requires l.w.err == nil ==> STK1(l.w)
+//@   requires l.w.err == nil ==> STK2(l.w)
+//@   requires l.w.err == nil ==> STK3(l.w)
+//@   requires l.w.err == nil ==> STK4(l.w)
+//@   requires l.w.err == nil ==> STK5(l.w)
+//@   requires l.w.err == nil ==> STK6(l.w)
+//@   requires l.w.err == nil ==> STK7(l.w)
+
+//@ func (ListWriter).Build
+//@   safety[C12]
+//@   requires WI(l.w)
+//@   requires l.w.err == nil ==> STK1(l.w)
+//@   requires l.w.err == nil ==> STK2(l.w)
+//@   requires l.w.err == nil ==> STK3(l.w)
+//@   requires l.w.err == nil ==> STK4(l.w)
+//@   requires l.w.err == nil ==> STK5(l.w)
+//@   requires l.w.err == nil ==> STK6(l.w)
+//@   requires l.w.err == nil ==> STK7(l.w)
+//@   modifies @WRITER
+//@   modifies @BUF
+//@   ensures[C12] WI(l.w)
+//@   ensures[C12] l.w.err == nil ==> STK1(l.w)
+//@   ensures[C12] l.w.err == nil ==> STK2(l.w)
+//@   ensures[C12] l.w.err == nil ==> STK3(l.w)
+//@   ensures[C12] l.w.err == nil ==> STK4(l.w)
+//@   ensures[C12] l.w.err == nil ==> STK5(l.w)
+//@   ensures[C12] l.w.err == nil ==> STK6(l.w)
+//@   ensures[C12] l.w.err == nil ==> STK7(l.w)
+//@   ensures[C12] STICKY(l.w, result1)
+
+//@ func (ListWriter).End
+//@   safety[C12]
+//@   requires WI(l.w)
+//@   requires l.w.err == nil ==> STK1(l.w)
+//@   requires l.w.err == nil ==> STK2(l.w)
+//@   requires l.w.err == nil ==> STK3(l.w)
+//@   requires l.w.err == nil ==> STK4(l.w)
+//@   requires l.w.err == nil ==> STK5(l.w)
+//@   requires l.w.err == nil ==> STK6(l.w)
+//@   requires l.w.err == nil ==> STK7(l.w)
+//@   modifies @WRITER
+//@   modifies @BUF
+//@   ensures[C12] WI(l.w)
+//@   ensures[C12] l.w.err == nil ==> STK1(l.w)
+//@   ensures[C12] l.w.err == nil ==> STK2(l.w)
+//@   ensures[C12] l.w.err == nil ==> STK3(l.w)
+//@   ensures[C12] l.w.err == nil ==> STK4(l.w)
+//@   ensures[C12] l.w.err == nil ==> STK5(l.w)
+//@   ensures[C12] l.w.err == nil ==> STK6(l.w)
+//@   ensures[C12] l.w.err == nil ==> STK7(l.w)
+//@   ensures[C12] STICKY(l.w, result)
+
+//@ func (ListWriter).Any
+//@   safety[C12]
+//@   requires WI(l.w)
+//@   requires l.w.err == nil ==> STK1(l.w)
+//@   requires l.w.err == nil ==> STK2(l.w)
+//@   requires l.w.err == nil ==> STK3(l.w)
+//@   requires l.w.err == nil ==> STK4(l.w)
+//@   requires l.w.err == nil ==> STK5(l.w)
+//@   requires l.w.err == nil ==> STK6(l.w)
+//@   requires l.w.err == nil ==> STK7(l.w)
+//@   modifies @WRITER
+//@   modifies @BUF
+//@   ensures[C12] WI(l.w)
+//@   ensures[C12] l.w.err == nil ==> STK1(l.w)
+//@   ensures[C12] l.w.err == nil ==> STK2(l.w)
+//@   ensures[C12] l.w.err == nil ==> STK3(l.w)
+//@   ensures[C12] l.w.err == nil ==> STK4(l.w)
+//@   ensures[C12] l.w.err == nil ==> STK5(l.w)
+//@   ensures[C12] l.w.err == nil ==> STK6(l.w)
+//@   ensures[C12] l.w.err == nil ==> STK7(l.w)
+//@   ensures[C12] STICKY(l.w, result)
+
+//@ func (ListWriter).Bool
+//@   safety[C12]
+//@   requires WI(l.w)
+//@   requires l.w.err == nil ==> STK1(l.w)
+//@   requires l.w.err == nil ==> STK2(l.w)
+//@   requires l.w.err == nil ==> STK3(l.w)
+//@   requires l.w.err == nil ==> STK4(l.w)
+//@   requires l.w.err == nil ==> STK5(l.w)
+//@   requires l.w.err == nil ==> STK6(l.w)
+//@   requires l.w.err == nil ==> STK7(l.w)
+//@   modifies @WRITER
+//@   modifies @BUF
+//@   ensures[C12] WI(l.w)
+//@   ensures[C12] l.w.err == nil ==> STK1(l.w)
+//@   ensures[C12] l.w.err == nil ==> STK2(l.w)
+//@   ensures[C12] l.w.err == nil ==> STK3(l.w)
+//@   ensures[C12] l.w.err == nil ==> STK4(l.w)
+//@   ensures[C12] l.w.err == nil ==> STK5(l.w)
+//@   ensures[C12] l.w.err == nil ==> STK6(l.w)
+//@   ensures[C12] l.w.err == nil ==> STK7(l.w)
+//@   ensures[C12] STICKY(l.w, result)
+
+//@ func (ListWriter).Byte
+//@   safety[C12]
+//@   requires WI(l.w)
+//@   requires l.w.err == nil ==> STK1(l.w)
+//@   requires l.w.err == nil ==> STK2(l.w)
+//@   requires l.w.err == nil ==> STK3(l.w)
+//@   requires l.w.err == nil ==> STK4(l.w)
+//@   requires l.w.err == nil ==> STK5(l.w)
+//@   requires l.w.err == nil ==> STK6(l.w)
+//@   requires l.w.err == nil ==> STK7(l.w)
+//@   modifies @WRITER
+//@   modifies @BUF
+//@   ensures[C12] WI(l.w)
+//@   ensures[C12] l.w.err == nil ==> STK1(l.w)
+//@   ensures[C12] l.w.err == nil ==> STK2(l.w)
+//@   ensures[C12] l.w.err == nil ==> STK3(l.w)
+//@   ensures[C12] l.w.err == nil ==> STK4(l.w)
+//@   ensures[C12] l.w.err == nil ==> STK5(l.w)
+//@   ensures[C12] l.w.err == nil ==> STK6(l.w)
+//@   ensures[C12] l.w.err == nil ==> STK7(l.w)
+//@   ensures[C12] STICKY(l.w, result)
+
+//@ func (ListWriter).Int16
+//@   safety[C12]
+//@   requires WI(l.w)
+//@   requires l.w.err == nil ==> STK1(l.w)
+//@   requires l.w.err == nil ==> STK2(l.w)
+//@   requires l.w.err == nil ==> STK3(l.w)
+//@   requires l.w.err == nil ==> STK4(l.w)
+//@   requires l.w.err == nil ==> STK5(l.w)
+//@   requires l.w.err == nil ==> STK6(l.w)
+//@   requires l.w.err == nil ==> STK7(l.w)
+//@   modifies @WRITER
+//@   modifies @BUF
+//@   ensures[C12] WI(l.w)
+//@   ensures[C12] l.w.err == nil ==> STK1(l.w)
+//@   ensures[C12] l.w.err == nil ==> STK2(l.w)
+//@   ensures[C12] l.w.err == nil ==> STK3(l.w)
+//@   ensures[C12] l.w.err == nil ==> STK4(l.w)
+//@   ensures[C12] l.w.err == nil ==> STK5(l.w)
+//@   ensures[C12] l.w.err == nil ==> STK6(l.w)
+//@   ensures[C12] l.w.err == nil ==> STK7(l.w)
+//@   ensures[C12] STICKY(l.w, result)
+
+//@ func (ListWriter).Int32
+//@   safety[C12]
+//@   requires WI(l.w)
+//@   requires l.w.err == nil ==> STK1(l.w)
+//@   requires l.w.err == nil ==> STK2(l.w)
+//@   requires l.w.err == nil ==> STK3(l.w)
+//@   requires l.w.err == nil ==> STK4(l.w)
+//@   requires l.w.err == nil ==> STK5(l.w)
+//@   requires l.w.err == nil ==> STK6(l.w)
+//@   requires l.w.err == nil ==> STK7(l.w)
+//@   modifies @WRITER
+//@   modifies @BUF
+//@   ensures[C12] WI(l.w)
+//@   ensures[C12] l.w.err == nil ==> STK1(l.w)
+//@   ensures[C12] l.w.err == nil ==> STK2(l.w)
+//@   ensures[C12] l.w.err == nil ==> STK3(l.w)
+//@   ensures[C12] l.w.err == nil ==> STK4(l.w)
+//@   ensures[C12] l.w.err == nil ==> STK5(l.w)
+//@   ensures[C12] l.w.err == nil ==> STK6(l.w)
+//@   ensures[C12] l.w.err == nil ==> STK7(l.w)
+//@   ensures[C12] STICKY(l.w, result)
+
+//@ func (ListWriter).Int64
+//@   safety[C12]
+//@   requires WI(l.w)
+//@   requires l.w.err == nil ==> STK1(l.w)
+//@   requires l.w.err == nil ==> STK2(l.w)
+//@   requires l.w.err == nil ==> STK3(l.w)
+//@   requires l.w.err == nil ==> STK4(l.w)
+//@   requires l.w.err == nil ==> STK5(l.w)
+//@   requires l.w.err == nil ==> STK6(l.w)
+//@   requires l.w.err == nil ==> STK7(l.w)
+//@   modifies @WRITER
+//@   modifies @BUF
+//@   ensures[C12] WI(l.w)
+//@   ensures[C12] l.w.err == nil ==> STK1(l.w)
+//@   ensures[C12] l.w.err == nil ==> STK2(l.w)
+//@   ensures[C12] l.w.err == nil ==> STK3(l.w)
+//@   ensures[C12] l.w.err == nil ==> STK4(l.w)
+//@   ensures[C12] l.w.err == nil ==> STK5(l.w)
+//@   ensures[C12] l.w.err == nil ==> STK6(l.w)
+//@   ensures[C12] l.w.err == nil ==> STK7(l.w)
+//@   ensures[C12] STICKY(l.w, result)
+
+//@ func (ListWriter).Uint16
+//@   safety[C12]
+//@   requires WI(l.w)
+//@   requires l.w.err == nil ==> STK1(l.w)
+//@   requires l.w.err == nil ==> STK2(l.w)
+//@   requires l.w.err == nil ==> STK3(l.w)
+//@   requires l.w.err == nil ==> STK4(l.w)
+//@   requires l.w.err == nil ==> STK5(l.w)
+//@   requires l.w.err == nil ==> STK6(l.w)
+//@   requires l.w.err == nil ==> STK7(l.w)
+//@   modifies @WRITER
+//@   modifies @BUF
+//@   ensures[C12] WI(l.w)
+//@   ensures[C12] l.w.err == nil ==> STK1(l.w)
+//@   ensures[C12] l.w.err == nil ==> STK2(l.w)
+//@   ensures[C12] l.w.err == nil ==> STK3(l.w)
+//@   ensures[C12] l.w.err == nil ==> STK4(l.w)
+//@   ensures[C12] l.w.err == nil ==> STK5(l.w)
+//@   ensures[C12] l.w.err == nil ==> STK6(l.w)
+//@   ensures[C12] l.w.err == nil ==> STK7(l.w)
+//@   ensures[C12] STICKY(l.w, result)
+
+//@ func (ListWriter).Uint32
+//@   safety[C12]
+//@   requires WI(l.w)
+//@   requires l.w.err == nil ==> STK1(l.w)
+//@   requires l.w.err == nil ==> STK2(l.w)
+//@   requires l.w.err == nil ==> STK3(l.w)
+//@   requires l.w.err == nil ==> STK4(l.w)
+//@   requires l.w.err == nil ==> STK5(l.w)
+//@   requires l.w.err == nil ==> STK6(l.w)
+//@   requires l.w.err == nil ==> STK7(l.w)
+//@   modifies @WRITER
+//@   modifies @BUF
+//@   ensures[C12] WI(l.w)
+//@   ensures[C12] l.w.err == nil ==> STK1(l.w)
+//@   ensures[C12] l.w.err == nil ==> STK2(l.w)
+//@   ensures[C12] l.w.err == nil ==> STK3(l.w)
+//@   ensures[C12] l.w.err == nil ==> STK4(l.w)
+//@   ensures[C12] l.w.err == nil ==> STK5(l.w)
+//@   ensures[C12] l.w.err == nil ==> STK6(l.w)
+//@   ensures[C12] l.w.err == nil ==> STK7(l.w)
+//@   ensures[C12] STICKY(l.w, result)
+
+//@ func (ListWriter).Uint64
+//@   safety[C12]
+//@   requires WI(l.w)
+//@   requires l.w.err == nil ==> STK1(l.w)
+//@   requires l.w.err == nil ==> STK2(l.w)
+//@   requires l.w.err == nil ==> STK3(l.w)
+//@   requires l.w.err == nil ==> STK4(l.w)
+//@   requires l.w.err == nil ==> STK5(l.w)
+//@   requires l.w.err == nil ==> STK6(l.w)
+//@   requires l.w.err == nil ==> STK7(l.w)
+//@   modifies @WRITER
+//@   modifies @BUF
+//@   ensures[C12] WI(l.w)
+//@   ensures[C12] l.w.err == nil ==> STK1(l.w)
+//@   ensures[C12] l.w.err == nil ==> STK2(l.w)
+//@   ensures[C12] l.w.err == nil ==> STK3(l.w)
+//@   ensures[C12] l.w.err == nil ==> STK4(l.w)
+//@   ensures[C12] l.w.err == nil ==> STK5(l.w)
+//@   ensures[C12] l.w.err == nil ==> STK6(l.w)
+//@   ensures[C12] l.w.err == nil ==> STK7(l.w)
+//@   ensures[C12] STICKY(l.w, result)
+
+//@ func (ListWriter).Float32
+//@   safety[C12]
+//@   requires WI(l.w)
+//@   requires l.w.err == nil ==> STK1(l.w)
+//@   requires l.w.err == nil ==> STK2(l.w)
+//@   requires l.w.err == nil ==> STK3(l.w)
+//@   requires l.w.err == nil ==> STK4(l.w)
+//@   requires l.w.err == nil ==> STK5(l.w)
+//@   requires l.w.err == nil ==> STK6(l.w)
+//@   requires l.w.err == nil ==> STK7(l.w)
+//@   modifies @WRITER
+//@   modifies @BUF
+//@   ensures[C12] WI(l.w)
+//@   ensures[C12] l.w.err == nil ==> STK1(l.w)
+//@   ensures[C12] l.w.err == nil ==> STK2(l.w)
+//@   ensures[C12] l.w.err == nil ==> STK3(l.w)
+//@   ensures[C12] l.w.err == nil ==> STK4(l.w)
+//@   ensures[C12] l.w.err == nil ==> STK5(l.w)
+//@   ensures[C12] l.w.err == nil ==> STK6(l.w)
+//@   ensures[C12] l.w.err == nil ==> STK7(l.w)
+//@   ensures[C12] STICKY(l.w, result)
+
+//@ func (ListWriter).Float64
+//@   safety[C12]
+//@   requires WI(l.w)
+//@   requires l.w.err == nil ==> STK1(l.w)
+//@   requires l.w.err == nil ==> STK2(l.w)
+//@   requires l.w.err == nil ==> STK3(l.w)
+//@   requires l.w.err == nil ==> STK4(l.w)
+//@   requires l.w.err == nil ==> STK5(l.w)
+//@   requires l.w.err == nil ==> STK6(l.w)
+//@   requires l.w.err == nil ==> STK7(l.w)
+//@   modifies @WRITER
+//@   modifies @BUF
+//@   ensures[C12] WI(l.w)
+//@   ensures[C12] l.w.err == nil ==> STK1(l.w)
+//@   ensures[C12] l.w.err == nil ==> STK2(l.w)
+//@   ensures[C12] l.w.err == nil ==> STK3(l.w)
+//@   ensures[C12] l.w.err == nil ==> STK4(l.w)
+//@   ensures[C12] l.w.err == nil ==> STK5(l.w)
+//@   ensures[C12] l.w.err == nil ==> STK6(l.w)
+//@   ensures[C12] l.w.err == nil ==> STK7(l.w)
+//@   ensures[C12] STICKY(l.w, result)
+
+//@ func (ListWriter).Bin64
+//@   safety[C12]
+//@   requires WI(l.w)
+//@   requires l.w.err == nil ==> STK1(l.w)
+//@   requires l.w.err == nil ==> STK2(l.w)
+//@   requires l.w.err == nil ==> STK3(l.w)
+//@   requires l.w.err == nil ==> STK4(l.w)
+//@   requires l.w.err == nil ==> STK5(l.w)
+//@   requires l.w.err == nil ==> STK6(l.w)
+//@   requires l.w.err == nil ==> STK7(l.w)
+//@   modifies @WRITER
+//@   modifies @BUF
+//@   ensures[C12] WI(l.w)
+//@   ensures[C12] l.w.err == nil ==> STK1(l.w)
+//@   ensures[C12] l.w.err == nil ==> STK2(l.w)
+//@   ensures[C12] l.w.err == nil ==> STK3(l.w)
+//@   ensures[C12] l.w.err == nil ==> STK4(l.w)
+//@   ensures[C12] l.w.err == nil ==> STK5(l.w)
+//@   ensures[C12] l.w.err == nil ==> STK6(l.w)
+//@   ensures[C12] l.w.err == nil ==> STK7(l.w)
+//@   ensures[C12] STICKY(l.w, result)
+
+//@ func (ListWriter).Bin128
+//@   safety[C12]
+//@   requires WI(l.w)
+//@   requires l.w.err == nil ==> STK1(l.w)
+//@   requires l.w.err == nil ==> STK2(l.w)
+//@   requires l.w.err == nil ==> STK3(l.w)
+//@   requires l.w.err == nil ==> STK4(l.w)
+//@   requires l.w.err == nil ==> STK5(l.w)
+//@   requires l.w.err == nil ==> STK6(l.w)
+//@   requires l.w.err == nil ==> STK7(l.w)
+//@   modifies @WRITER
+//@   modifies @BUF
+//@   ensures[C12] WI(l.w)
+//@   ensures[C12] l.w.err == nil ==> STK1(l.w)
+//@   ensures[C12] l.w.err == nil ==> STK2(l.w)
+//@   ensures[C12] l.w.err == nil ==> STK3(l.w)
+//@   ensures[C12] l.w.err == nil ==> STK4(l.w)
+//@   ensures[C12] l.w.err == nil ==> STK5(l.w)
+//@   ensures[C12] l.w.err == nil ==> STK6(l.w)
+//@   ensures[C12] l.w.err == nil ==> STK7(l.w)
+//@   ensures[C12] STICKY(l.w, result)
+
+//@ func (ListWriter).Bin256
+//@   safety[C12]
+//@   requires WI(l.w)
+//@   requires l.w.err == nil ==> STK1(l.w)
+//@   requires l.w.err == nil ==> STK2(l.w)
+//@   requires l.w.err == nil ==> STK3(l.w)
+//@   requires l.w.err == nil ==> STK4(l.w)
+//@   requires l.w.err == nil ==> STK5(l.w)
+//@   requires l.w.err == nil ==> STK6(l.w)
+//@   requires l.w.err == nil ==> STK7(l.w)
+//@   modifies @WRITER
+//@   modifies @BUF
+//@   ensures[C12] WI(l.w)
+//@   ensures[C12] l.w.err == nil ==> STK1(l.w)
+//@   ensures[C12] l.w.err == nil ==> STK2(l.w)
+//@   ensures[C12] l.w.err == nil ==> STK3(l.w)
+//@   ensures[C12] l.w.err == nil ==> STK4(l.w)
+//@   ensures[C12] l.w.err == nil ==> STK5(l.w)
+//@   ensures[C12] l.w.err == nil ==> STK6(l.w)
+//@   ensures[C12] l.w.err == nil ==> STK7(l.w)
+//@   ensures[C12] STICKY(l.w, result)
+
+//@ func (ListWriter).Bytes
+//@   safety[C12]
+//@   requires WI(l.w)
+//@   requires l.w.err == nil ==> STK1(l.w)
+//@   requires l.w.err == nil ==> STK2(l.w)
+//@   requires l.w.err == nil ==> STK3(l.w)
+//@   requires l.w.err == nil ==> STK4(l.w)
+//@   requires l.w.err == nil ==> STK5(l.w)
+//@   requires l.w.err == nil ==> STK6(l.w)
+//@   requires l.w.err == nil ==> STK7(l.w)
+//@   modifies @WRITER
+//@   modifies @BUF
+//@   ensures[C12] WI(l.w)
+//@   ensures[C12] l.w.err == nil ==> STK1(l.w)
+//@   ensures[C12] l.w.err == nil ==> STK2(l.w)
+//@   ensures[C12] l.w.err == nil ==> STK3(l.w)
+//@   ensures[C12] l.w.err == nil ==> STK4(l.w)
+//@   ensures[C12] l.w.err == nil ==> STK5(l.w)
+//@   ensures[C12] l.w.err == nil ==> STK6(l.w)
+//@   ensures[C12] l.w.err == nil ==> STK7(l.w)
+//@   ensures[C12] STICKY(l.w, result)
+
+//@ func (ListWriter).String
+//@   safety[C12]
+//@   requires WI(l.w)
+//@   requires l.w.err == nil ==> STK1(l.w)
+//@   requires l.w.err == nil ==> STK2(l.w)
+//@   requires l.w.err == nil ==> STK3(l.w)
+//@   requires l.w.err == nil ==> STK4(l.w)
+//@   requires l.w.err == nil ==> STK5(l.w)
+//@   requires l.w.err == nil ==> STK6(l.w)
+//@   requires l.w.err == nil ==> STK7(l.w)
+//@   modifies @WRITER
+//@   modifies @BUF
+//@   ensures[C12] WI(l.w)
+//@   ensures[C12] l.w.err == nil ==> STK1(l.w)
+//@   ensures[C12] l.w.err == nil ==> STK2(l.w)
+//@   ensures[C12] l.w.err == nil ==> STK3(l.w)
+//@   ensures[C12] l.w.err == nil ==> STK4(l.w)
+//@   ensures[C12] l.w.err == nil ==> STK5(l.w)
+//@   ensures[C12] l.w.err == nil ==> STK6(l.w)
+//@   ensures[C12] l.w.err == nil ==> STK7(l.w)
+//@   ensures[C12] STICKY(l.w, result)
+
+//@ func (ListWriter).List
+//@   safety[C12]
+//@   requires WI(l.w)
+//@   requires l.w.err == nil ==> STK1(l.w)
+//@   requires l.w.err == nil ==> STK2(l.w)
+//@   requires l.w.err == nil ==> STK3(l.w)
+//@   requires l.w.err == nil ==> STK4(l.w)
+//@   requires l.w.err == nil ==> STK5(l.w)
+//@   requires l.w.err == nil ==> STK6(l.w)
+//@   requires l.w.err == nil ==> STK7(l.w)
+//@   modifies @WRITER
+//@   modifies @BUF
+//@   ensures[C12] WI(l.w)
+//@   ensures[C12] l.w.err == nil ==> STK1(l.w)
+//@   ensures[C12] l.w.err == nil ==> STK2(l.w)
+//@   ensures[C12] l.w.err == nil ==> STK3(l.w)
+//@   ensures[C12] l.w.err == nil ==> STK4(l.w)
+//@   ensures[C12] l.w.err == nil ==> STK5(l.w)
+//@   ensures[C12] l.w.err == nil ==> STK6(l.w)
+//@   ensures[C12] l.w.err == nil ==> STK7(l.w)
+//@   ensures[C12] old(l.w.err) != nil ==> l.w.err == old(l.w.err)
+//@   ensures[C12] result.w == l.w
+
+//@ func (ListWriter).Message
+//@   safety[C12]
+//@   requires WI(l.w)
+//@   requires l.w.err == nil ==> STK1(l.w)
+//@   requires l.w.err == nil ==> STK2(l.w)
+//@   requires l.w.err == nil ==> STK3(l.w)
+//@   requires l.w.err == nil ==> STK4(l.w)
+//@   requires l.w.err == nil ==> STK5(l.w)
+//@   requires l.w.err == nil ==> STK6(l.w)
+//@   requires l.w.err == nil ==> STK7(l.w)
+//@   modifies @WRITER
+//@   modifies @BUF
+//@   ensures[C12] WI(l.w)
+//@   ensures[C12] l.w.err == nil ==> STK1(l.w)
+//@   ensures[C12] l.w.err == nil ==> STK2(l.w)
+//@   ensures[C12] l.w.err == nil ==> STK3(l.w)
+//@   ensures[C12] l.w.err == nil ==> STK4(l.w)
+//@   ensures[C12] l.w.err == nil ==> STK5(l.w)
+//@   ensures[C12] l.w.err == nil ==> STK6(l.w)
+//@   ensures[C12] l.w.err == nil ==> STK7(l.w)
+//@   ensures[C12] old(l.w.err) != nil ==> l.w.err == old(l.w.err)
+//@   ensures[C12] result.w == l.w
+
+//@ func (MessageWriter).Field
+//@   safety[C12]
+//@   requires WI(m.w)
+//@   requires m.w.err == nil ==> STK1(m.w)
+//@   requires m.w.err == nil ==> STK2(m.w)
+//@   requires m.w.err == nil ==> STK3(m.w)
+//@   requires m.w.err == nil ==> STK4(m.w)
+//@   requires m.w.err == nil ==> STK5(m.w)
+//@   requires m.w.err == nil ==> STK6(m.w)
+//@   requires m.w.err == nil ==> STK7(m.w)
+//@   ensures result.w == m.w && result.tag == field
+
+//@ func (MessageWriter).HasField
+//@   safety[C12]
+//@   requires WI(m.w)
+//@   requires m.w.err == nil ==> STK1(m.w)
+//@   requires m.w.err == nil ==> STK2(m.w)
+//@   requires m.w.err == nil ==> STK3(m.w)
+//@   requires m.w.err == nil ==> STK4(m.w)
+//@   requires m.w.err == nil ==> STK5(m.w)
+//@   requires m.w.err == nil ==> STK6(m.w)
+//@   requires m.w.err == nil ==> STK7(m.w)
+
+//@ func (*MessageWriter).Build
+//@   safety[C12]
+//@   requires m != nil
+//@   requires m.w != nil ==> WI(m.w)
+//@   requires m.w != nil && m.w.err == nil ==> STK1(m.w)
+//@   requires m.w != nil && m.w.err == nil ==> STK2(m.w)
+//@   requires m.w != nil && m.w.err == nil ==> STK3(m.w)
+//@   requires m.w != nil && m.w.err == nil ==> STK4(m.w)
+//@   requires m.w != nil && m.w.err == nil ==> STK5(m.w)
+//@   requires m.w != nil && m.w.err == nil ==> STK6(m.w)
+//@   requires m.w != nil && m.w.err == nil ==> STK7(m.w)
+//@   modifies @WRITER
+//@   modifies @BUF
+//@   modifies writer.MessageWriter.*
+
+//@ func (*MessageWriter).End
+//@   safety[C12]
+//@   requires m != nil
+//@   requires m.w != nil ==> WI(m.w)
+//@   requires m.w != nil && m.w.err == nil ==> STK1(m.w)
+//@   requires m.w != nil && m.w.err == nil ==> STK2(m.w)
+//@   requires m.w != nil && m.w.err == nil ==> STK3(m.w)
+//@   requires m.w != nil && m.w.err == nil ==> STK4(m.w)
+//@   requires m.w != nil && m.w.err == nil ==> STK5(m.w)
+//@   requires m.w != nil && m.w.err == nil ==> STK6(m.w)
+//@   requires m.w != nil && m.w.err == nil ==> STK7(m.w)
+//@   modifies @WRITER
+//@   modifies @BUF
+//@   modifies writer.MessageWriter.*
+
+//@ func (FieldWriter).Any
+//@   safety[C12]
+//@   requires WI(f.w)
+//@   requires f.w.err == nil ==> STK1(f.w)
+//@   requires f.w.err == nil ==> STK2(f.w)
+//@   requires f.w.err == nil ==> STK3(f.w)
+//@   requires f.w.err == nil ==> STK4(f.w)
+//@   requires f.w.err == nil ==> STK5(f.w)
+//@   requires f.w.err == nil ==> STK6(f.w)
+//@   requires f.w.err == nil ==> STK7(f.w)
+//@   modifies @WRITER
+//@   modifies @BUF
+//@   ensures[C12] WI(f.w)
+//@   ensures[C12] f.w.err == nil ==> STK1(f.w)
+//@   ensures[C12] f.w.err == nil ==> STK2(f.w)
+//@   ensures[C12] f.w.err == nil ==> STK3(f.w)
+//@   ensures[C12] f.w.err == nil ==> STK4(f.w)
+//@   ensures[C12] f.w.err == nil ==> STK5(f.w)
+//@   ensures[C12] f.w.err == nil ==> STK6(f.w)
+//@   ensures[C12] f.w.err == nil ==> STK7(f.w)
+//@   ensures[C12] STICKY(f.w, result)
+
+//@ func (FieldWriter).Bool
+//@   safety[C12]
+//@   requires WI(f.w)
+//@   requires f.w.err == nil ==> STK1(f.w)
+//@   requires f.w.err == nil ==> STK2(f.w)
+//@   requires f.w.err == nil ==> STK3(f.w)
+//@   requires f.w.err == nil ==> STK4(f.w)
+//@   requires f.w.err == nil ==> STK5(f.w)
+//@   requires f.w.err == nil ==> STK6(f.w)
+//@   requires f.w.err == nil ==> STK7(f.w)
+//@   modifies @WRITER
+//@   modifies @BUF
+//@   ensures[C12] WI(f.w)
+//@   ensures[C12] f.w.err == nil ==> STK1(f.w)
+//@   ensures[C12] f.w.err == nil ==> STK2(f.w)
+//@   ensures[C12] f.w.err == nil ==> STK3(f.w)
+//@   ensures[C12] f.w.err == nil ==> STK4(f.w)
+//@   ensures[C12] f.w.err == nil ==> STK5(f.w)
+//@   ensures[C12] f.w.err == nil ==> STK6(f.w)
+//@   ensures[C12] f.w.err == nil ==> STK7(f.w)
+//@   ensures[C12] STICKY(f.w, result)
+
+//@ func (FieldWriter).Byte
+//@   safety[C12]
+//@   requires WI(f.w)
+//@   requires f.w.err == nil ==> STK1(f.w)
+//@   requires f.w.err == nil ==> STK2(f.w)
+//@   requires f.w.err == nil ==> STK3(f.w)
+//@   requires f.w.err == nil ==> STK4(f.w)
+//@   requires f.w.err == nil ==> STK5(f.w)
+//@   requires f.w.err == nil ==> STK6(f.w)
+//@   requires f.w.err == nil ==> STK7(f.w)
+//@   modifies @WRITER
+//@   modifies @BUF
+//@   ensures[C12] WI(f.w)
+//@   ensures[C12] f.w.err == nil ==> STK1(f.w)
+//@   ensures[C12] f.w.err == nil ==> STK2(f.w)
+//@   ensures[C12] f.w.err == nil ==> STK3(f.w)
+//@   ensures[C12] f.w.err == nil ==> STK4(f.w)
+//@   ensures[C12] f.w.err == nil ==> STK5(f.w)
+//@   ensures[C12] f.w.err == nil ==> STK6(f.w)
+//@   ensures[C12] f.w.err == nil ==> STK7(f.w)
+//@   ensures[C12] STICKY(f.w, result)
+
+//@ func (FieldWriter).Int16
+//@   safety[C12]
+//@   requires WI(f.w)
+//@   requires f.w.err == nil ==> STK1(f.w)
+//@   requires f.w.err == nil ==> STK2(f.w)
+//@   requires f.w.err == nil ==> STK3(f.w)
+//@   requires f.w.err == nil ==> STK4(f.w)
+//@   requires f.w.err == nil ==> STK5(f.w)
+//@   requires f.w.err == nil ==> STK6(f.w)
+//@   requires f.w.err == nil ==> STK7(f.w)
+//@   modifies @WRITER
+//@   modifies @BUF
+//@   ensures[C12] WI(f.w)
+//@   ensures[C12] f.w.err == nil ==> STK1(f.w)
+//@   ensures[C12] f.w.err == nil ==> STK2(f.w)
+//@   ensures[C12] f.w.err == nil ==> STK3(f.w)
+//@   ensures[C12] f.w.err == nil ==> STK4(f.w)
+//@   ensures[C12] f.w.err == nil ==> STK5(f.w)
+//@   ensures[C12] f.w.err == nil ==> STK6(f.w)
+//@   ensures[C12] f.w.err == nil ==> STK7(f.w)
+//@   ensures[C12] STICKY(f.w, result)
+
+//@ func (FieldWriter).Int32
+//@   safety[C12]
+//@   requires WI(f.w)
+//@   requires f.w.err == nil ==> STK1(f.w)
+//@   requires f.w.err == nil ==> STK2(f.w)
+//@   requires f.w.err == nil ==> STK3(f.w)
+//@   requires f.w.err == nil ==> STK4(f.w)
+//@   requires f.w.err == nil ==> STK5(f.w)
+//@   requires f.w.err == nil ==> STK6(f.w)
+//@   requires f.w.err == nil ==> STK7(f.w)
+//@   modifies @WRITER
+//@   modifies @BUF
+//@   ensures[C12] WI(f.w)
+//@   ensures[C12] f.w.err == nil ==> STK1(f.w)
+//@   ensures[C12] f.w.err == nil ==> STK2(f.w)
+//@   ensures[C12] f.w.err == nil ==> STK3(f.w)
+//@   ensures[C12] f.w.err == nil ==> STK4(f.w)
+//@   ensures[C12] f.w.err == nil ==> STK5(f.w)
+//@   ensures[C12] f.w.err == nil ==> STK6(f.w)
+//@   ensures[C12] f.w.err == nil ==> STK7(f.w)
+//@   ensures[C12] STICKY(f.w, result)
+
+//@ func (FieldWriter).Int64
+//@   safety[C12]
+//@   requires WI(f.w)
+//@   requires f.w.err == nil ==> STK1(f.w)
+//@   requires f.w.err == nil ==> STK2(f.w)
+//@   requires f.w.err == nil ==> STK3(f.w)
+//@   requires f.w.err == nil ==> STK4(f.w)
+//@   requires f.w.err == nil ==> STK5(f.w)
+//@   requires f.w.err == nil ==> STK6(f.w)
+//@   requires f.w.err == nil ==> STK7(f.w)
+//@   modifies @WRITER
+//@   modifies @BUF
+//@   ensures[C12] WI(f.w)
+//@   ensures[C12] f.w.err == nil ==> STK1(f.w)
+//@   ensures[C12] f.w.err == nil ==> STK2(f.w)
+//@   ensures[C12] f.w.err == nil ==> STK3(f.w)
+//@   ensures[C12] f.w.err == nil ==> STK4(f.w)
+//@   ensures[C12] f.w.err == nil ==> STK5(f.w)
+//@   ensures[C12] f.w.err == nil ==> STK6(f.w)
+//@   ensures[C12] f.w.err == nil ==> STK7(f.w)
+//@   ensures[C12] STICKY(f.w, result)
+
+//@ func (FieldWriter).Uint16
+//@   safety[C12]
+//@   requires WI(f.w)
+//@   requires f.w.err == nil ==> STK1(f.w)
+//@   requires f.w.err == nil ==> STK2(f.w)
+//@   requires f.w.err == nil ==> STK3(f.w)
+//@   requires f.w.err == nil ==> STK4(f.w)
+//@   requires f.w.err == nil ==> STK5(f.w)
+//@   requires f.w.err == nil ==> STK6(f.w)
+//@   requires f.w.err == nil ==> STK7(f.w)
+//@   modifies @WRITER
+//@   modifies @BUF
+//@   ensures[C12] WI(f.w)
+//@   ensures[C12] f.w.err == nil ==> STK1(f.w)
+//@   ensures[C12] f.w.err == nil ==> STK2(f.w)
+//@   ensures[C12] f.w.err == nil ==> STK3(f.w)
+//@   ensures[C12] f.w.err == nil ==> STK4(f.w)
+//@   ensures[C12] f.w.err == nil ==> STK5(f.w)
+//@   ensures[C12] f.w.err == nil ==> STK6(f.w)
+//@   ensures[C12] f.w.err == nil ==> STK7(f.w)
+//@   ensures[C12] STICKY(f.w, result)
+
+//@ func (FieldWriter).Uint32
+//@   safety[C12]
+//@   requires WI(f.w)
+//@   requires f.w.err == nil ==> STK1(f.w)
+//@   requires f.w.err == nil ==> STK2(f.w)
+//@   requires f.w.err == nil ==> STK3(f.w)
+//@   requires f.w.err == nil ==> STK4(f.w)
+//@   requires f.w.err == nil ==> STK5(f.w)
+//@   requires f.w.err == nil ==> STK6(f.w)
+//@   requires f.w.err == nil ==> STK7(f.w)
+//@   modifies @WRITER
+//@   modifies @BUF
+//@   ensures[C12] WI(f.w)
+//@   ensures[C12] f.w.err == nil ==> STK1(f.w)
+//@   ensures[C12] f.w.err == nil ==> STK2(f.w)
+//@   ensures[C12] f.w.err == nil ==> STK3(f.w)
+//@   ensures[C12] f.w.err == nil ==> STK4(f.w)
+//@   ensures[C12] f.w.err == nil ==> STK5(f.w)
+//@   ensures[C12] f.w.err == nil ==> STK6(f.w)
+//@   ensures[C12] f.w.err == nil ==> STK7(f.w)
+//@   ensures[C12] STICKY(f.w, result)
+
+//@ func (FieldWriter).Uint64
+//@   safety[C12]
+//@   requires WI(f.w)
+//@   requires f.w.err == nil ==> STK1(f.w)
+//@   requires f.w.err == nil ==> STK2(f.w)
+//@   requires f.w.err == nil ==> STK3(f.w)
+//@   requires f.w.err == nil ==> STK4(f.w)
+//@   requires f.w.err == nil ==> STK5(f.w)
+//@   requires f.w.err == nil ==> STK6(f.w)
+//@   requires f.w.err == nil ==> STK7(f.w)
+//@   modifies @WRITER
+//@   modifies @BUF
+//@   ensures[C12] WI(f.w)
+//@   ensures[C12] f.w.err == nil ==> STK1(f.w)
+//@   ensures[C12] f.w.err == nil ==> STK2(f.w)
+//@   ensures[C12] f.w.err == nil ==> STK3(f.w)
+//@   ensures[C12] f.w.err == nil ==> STK4(f.w)
+//@   ensures[C12] f.w.err == nil ==> STK5(f.w)
+//@   ensures[C12] f.w.err == nil ==> STK6(f.w)
+//@   ensures[C12] f.w.err == nil ==> STK7(f.w)
+//@   ensures[C12] STICKY(f.w, result)
+
+//@ func (FieldWriter).Float32
+//@   safety[C12]
+//@   requires WI(f.w)
+//@   requires f.w.err == nil ==> STK1(f.w)
+//@   requires f.w.err == nil ==> STK2(f.w)
+//@   requires f.w.err == nil ==> STK3(f.w)
+//@   requires f.w.err == nil ==> STK4(f.w)
+//@   requires f.w.err == nil ==> STK5(f.w)
+//@   requires f.w.err == nil ==> STK6(f.w)
+//@   requires f.w.err == nil ==> STK7(f.w)
+//@   modifies @WRITER
+//@   modifies @BUF
+//@   ensures[C12] WI(f.w)
+//@   ensures[C12] f.w.err == nil ==> STK1(f.w)
+//@   ensures[C12] f.w.err == nil ==> STK2(f.w)
+//@   ensures[C12] f.w.err == nil ==> STK3(f.w)
+//@   ensures[C12] f.w.err == nil ==> STK4(f.w)
+//@   ensures[C12] f.w.err == nil ==> STK5(f.w)
+//@   ensures[C12] f.w.err == nil ==> STK6(f.w)
+//@   ensures[C12] f.w.err == nil ==> STK7(f.w)
+//@   ensures[C12] STICKY(f.w, result)
+
+//@ func (FieldWriter).Float64
+//@   safety[C12]
+//@   requires WI(f.w)
+//@   requires f.w.err == nil ==> STK1(f.w)
+//@   requires f.w.err == nil ==> STK2(f.w)
+//@   requires f.w.err == nil ==> STK3(f.w)
+//@   requires f.w.err == nil ==> STK4(f.w)
+//@   requires f.w.err == nil ==> STK5(f.w)
+//@   requires f.w.err == nil ==> STK6(f.w)
+//@   requires f.w.err == nil ==> STK7(f.w)
+//@   modifies @WRITER
+//@   modifies @BUF
+//@   ensures[C12] WI(f.w)
+//@   ensures[C12] f.w.err == nil ==> STK1(f.w)
+//@   ensures[C12] f.w.err == nil ==> STK2(f.w)
+//@   ensures[C12] f.w.err == nil ==> STK3(f.w)
+//@   ensures[C12] f.w.err == nil ==> STK4(f.w)
+//@   ensures[C12] f.w.err == nil ==> STK5(f.w)
+//@   ensures[C12] f.w.err == nil ==> STK6(f.w)
+//@   ensures[C12] f.w.err == nil ==> STK7(f.w)
+//@   ensures[C12] STICKY(f.w, result)
+
+//@ func (FieldWriter).Bin64
+//@   safety[C12]
+//@   requires WI(f.w)
+//@   requires f.w.err == nil ==> STK1(f.w)
+//@   requires f.w.err == nil ==> STK2(f.w)
+//@   requires f.w.err == nil ==> STK3(f.w)
+//@   requires f.w.err == nil ==> STK4(f.w)
+//@   requires f.w.err == nil ==> STK5(f.w)
+//@   requires f.w.err == nil ==> STK6(f.w)
+//@   requires f.w.err == nil ==> STK7(f.w)
+//@   modifies @WRITER
+//@   modifies @BUF
+//@   ensures[C12] WI(f.w)
+//@   ensures[C12] f.w.err == nil ==> STK1(f.w)
+//@   ensures[C12] f.w.err == nil ==> STK2(f.w)
+//@   ensures[C12] f.w.err == nil ==> STK3(f.w)
+//@   ensures[C12] f.w.err == nil ==> STK4(f.w)
+//@   ensures[C12] f.w.err == nil ==> STK5(f.w)
+//@   ensures[C12] f.w.err == nil ==> STK6(f.w)
+//@   ensures[C12] f.w.err == nil ==> STK7(f.w)
+//@   ensures[C12] STICKY(f.w, result)
+
+//@ func (FieldWriter).Bin128
+//@   safety[C12]
+//@   requires WI(f.w)
+//@   requires f.w.err == nil ==> STK1(f.w)
+//@   requires f.w.err == nil ==> STK2(f.w)
+//@   requires f.w.err == nil ==> STK3(f.w)
+//@   requires f.w.err == nil ==> STK4(f.w)
+//@   requires f.w.err == nil ==> STK5(f.w)
+//@   requires f.w.err == nil ==> STK6(f.w)
+//@   requires f.w.err == nil ==> STK7(f.w)
+//@   modifies @WRITER
+//@   modifies @BUF
+//@   ensures[C12] WI(f.w)
+//@   ensures[C12] f.w.err == nil ==> STK1(f.w)
+//@   ensures[C12] f.w.err == nil ==> STK2(f.w)
+//@   ensures[C12] f.w.err == nil ==> STK3(f.w)
+//@   ensures[C12] f.w.err == nil ==> STK4(f.w)
+//@   ensures[C12] f.w.err == nil ==> STK5(f.w)
+//@   ensures[C12] f.w.err == nil ==> STK6(f.w)
+//@   ensures[C12] f.w.err == nil ==> STK7(f.w)
+//@   ensures[C12] STICKY(f.w, result)
+
+//@ func (FieldWriter).Bin256
+//@   safety[C12]
+//@   requires WI(f.w)
+//@   requires f.w.err == nil ==> STK1(f.w)
+//@   requires f.w.err == nil ==> STK2(f.w)
+//@   requires f.w.err == nil ==> STK3(f.w)
+//@   requires f.w.err == nil ==> STK4(f.w)
+//@   requires f.w.err == nil ==> STK5(f.w)
+//@   requires f.w.err == nil ==> STK6(f.w)
+//@   requires f.w.err == nil ==> STK7(f.w)
+//@   modifies @WRITER
+//@   modifies @BUF
+//@   ensures[C12] WI(f.w)
+//@   ensures[C12] f.w.err == nil ==> STK1(f.w)
+//@   ensures[C12] f.w.err == nil ==> STK2(f.w)
+//@   ensures[C12] f.w.err == nil ==> STK3(f.w)
+//@   ensures[C12] f.w.err == nil ==> STK4(f.w)
+//@   ensures[C12] f.w.err == nil ==> STK5(f.w)
+//@   ensures[C12] f.w.err == nil ==> STK6(f.w)
+//@   ensures[C12] f.w.err == nil ==> STK7(f.w)
+//@   ensures[C12] STICKY(f.w, result)
+
+//@ func (FieldWriter).Bytes
+//@   safety[C12]
+//@   requires WI(f.w)
+//@   requires f.w.err == nil ==> STK1(f.w)
+//@   requires f.w.err == nil ==> STK2(f.w)
+//@   requires f.w.err == nil ==> STK3(f.w)
+//@   requires f.w.err == nil ==> STK4(f.w)
+//@   requires f.w.err == nil ==> STK5(f.w)
+//@   requires f.w.err == nil ==> STK6(f.w)
+//@   requires f.w.err == nil ==> STK7(f.w)
+//@   modifies @WRITER
+//@   modifies @BUF
+//@   ensures[C12] WI(f.w)
+//@   ensures[C12] f.w.err == nil ==> STK1(f.w)
+//@   ensures[C12] f.w.err == nil ==> STK2(f.w)
+//@   ensures[C12] f.w.err == nil ==> STK3(f.w)
+//@   ensures[C12] f.w.err == nil ==> STK4(f.w)
+//@   ensures[C12] f.w.err == nil ==> STK5(f.w)
+//@   ensures[C12] f.w.err == nil ==> STK6(f.w)
+//@   ensures[C12] f.w.err == nil ==> STK7(f.w)
+//@   ensures[C12] STICKY(f.w, result)
+
+//@ func (FieldWriter).String
+//@   safety[C12]
+//@   requires WI(f.w)
+//@   requires f.w.err == nil ==> STK1(f.w)
+//@   requires f.w.err == nil ==> STK2(f.w)
+//@   requires f.w.err == nil ==> STK3(f.w)
+//@   requires f.w.err == nil ==> STK4(f.w)
+//@   requires f.w.err == nil ==> STK5(f.w)
+//@   requires f.w.err == nil ==> STK6(f.w)
+//@   requires f.w.err == nil ==> STK7(f.w)
+//@   modifies @WRITER
+//@   modifies @BUF
+//@   ensures[C12] WI(f.w)
+//@   ensures[C12] f.w.err == nil ==> STK1(f.w)
+//@   ensures[C12] f.w.err == nil ==> STK2(f.w)
+//@   ensures[C12] f.w.err == nil ==> STK3(f.w)
+//@   ensures[C12] f.w.err == nil ==> STK4(f.w)
+//@   ensures[C12] f.w.err == nil ==> STK5(f.w)
+//@   ensures[C12] f.w.err == nil ==> STK6(f.w)
+//@   ensures[C12] f.w.err == nil ==> STK7(f.w)
+//@   ensures[C12] STICKY(f.w, result)
+
+//@ func (FieldWriter).List
+//@   safety[C12]
+//@   requires WI(f.w)
+//@   requires f.w.err == nil ==> STK1(f.w)
+//@   requires f.w.err == nil ==> STK2(f.w)
+//@   requires f.w.err == nil ==> STK3(f.w)
+//@   requires f.w.err == nil ==> STK4(f.w)
+//@   requires f.w.err == nil ==> STK5(f.w)
+//@   requires f.w.err == nil ==> STK6(f.w)
+//@   requires f.w.err == nil ==> STK7(f.w)
+//@   modifies @WRITER
+//@   modifies @BUF
+//@   ensures[C12] WI(f.w)
+//@   ensures[C12] f.w.err == nil ==> STK1(f.w)
+//@   ensures[C12] f.w.err == nil ==> STK2(f.w)
+//@   ensures[C12] f.w.err == nil ==> STK3(f.w)
+//@   ensures[C12] f.w.err == nil ==> STK4(f.w)
+//@   ensures[C12] f.w.err == nil ==> STK5(f.w)
+//@   ensures[C12] f.w.err == nil ==> STK6(f.w)
+//@   ensures[C12] f.w.err == nil ==> STK7(f.w)
+//@   ensures[C12] old(f.w.err) != nil ==> f.w.err == old(f.w.err)
+//@   ensures[C12] result.w == f.w
+
+//@ func (FieldWriter).Message
+//@   safety[C12]
+//@   requires WI(f.w)
+//@   requires f.w.err == nil ==> STK1(f.w)
+//@   requires f.w.err == nil ==> STK2(f.w)
+//@   requires f.w.err == nil ==> STK3(f.w)
+//@   requires f.w.err == nil ==> STK4(f.w)
+//@   requires f.w.err == nil ==> STK5(f.w)
+//@   requires f.w.err == nil ==> STK6(f.w)
+//@   requires f.w.err == nil ==> STK7(f.w)
+//@   modifies @WRITER
+//@   modifies @BUF
+//@   ensures[C12] WI(f.w)
+//@   ensures[C12] f.w.err == nil ==> STK1(f.w)
+//@   ensures[C12] f.w.err == nil ==> STK2(f.w)
+//@   ensures[C12] f.w.err == nil ==> STK3(f.w)
+//@   ensures[C12] f.w.err == nil ==> STK4(f.w)
+//@   ensures[C12] f.w.err == nil ==> STK5(f.w)
+//@   ensures[C12] f.w.err == nil ==> STK6(f.w)
+//@   ensures[C12] f.w.err == nil ==> STK7(f.w)
+//@   ensures[C12] old(f.w.err) != nil ==> f.w.err == old(f.w.err)
+//@   ensures[C12] result.w == f.w
+
+//@ func (*writer).Reset
+//@   safety[C12]
+//@   requires w != nil && (w.writerState != nil ==> !w.writerState.releaseWriter)
+//@   modifies @WRITER
+//@   modifies @BUF
+//@   ensures[C12] WI(w) && w.err == nil && NS(w) == 0 && NE(w) == 0 && NF(w) == 0
+//@   ensures[C12] buf != nil ==> w.writerState.buf == buf
+
+//@ func (*writer).List
+//@   safety[C12]
+//@   requires WI(w)
+//@   requires w.err == nil ==> STK1(w)
+//@   requires w.err == nil ==> STK2(w)
+//@   requires w.err == nil ==> STK3(w)
+//@   requires w.err == nil ==> STK4(w)
+//@   requires w.err == nil ==> STK5(w)
+//@   requires w.err == nil ==> STK6(w)
+//@   requires w.err == nil ==> STK7(w)
+//@   modifies @WRITER
+//@   modifies @BUF
+//@   ensures[C12] WI(w)
+//@   ensures[C12] w.err == nil ==> STK1(w)
+//@   ensures[C12] w.err == nil ==> STK2(w)
+//@   ensures[C12] w.err == nil ==> STK3(w)
+//@   ensures[C12] w.err == nil ==> STK4(w)
+//@   ensures[C12] w.err == nil ==> STK5(w)
+//@   ensures[C12] w.err == nil ==> STK6(w)
+//@   ensures[C12] w.err == nil ==> STK7(w)
+//@   ensures[C12] old(w.err) != nil ==> w.err == old(w.err)
+//@   ensures[C12] result.w == w
+
+//@ func (*writer).Value
+//@   safety[C12]
+//@   requires WI(w)
+//@   requires w.err == nil ==> STK1(w)
+//@   requires w.err == nil ==> STK2(w)
+//@   requires w.err == nil ==> STK3(w)
+//@   requires w.err == nil ==> STK4(w)
+//@   requires w.err == nil ==> STK5(w)
+//@   requires w.err == nil ==> STK6(w)
+//@   requires w.err == nil ==> STK7(w)
+//@   ensures result.w == w
+
+//@ func (*writer).Message
+//@   safety[C12]
+//@   requires WI(w)
+//@   requires w.err == nil ==> STK1(w)
+//@   requires w.err == nil ==> STK2(w)
+//@   requires w.err == nil ==> STK3(w)
+//@   requires w.err == nil ==> STK4(w)
+//@   requires w.err == nil ==> STK5(w)
+//@   requires w.err == nil ==> STK6(w)
+//@   requires w.err == nil ==> STK7(w)
+//@   modifies @WRITER
+//@   modifies @BUF
+//@   ensures[C12] WI(w)
+//@   ensures[C12] w.err == nil ==> STK1(w)
+//@   ensures[C12] w.err == nil ==> STK2(w)
+//@   ensures[C12] w.err == nil ==> STK3(w)
+//@   ensures[C12] w.err == nil ==> STK4(w)
+//@   ensures[C12] w.err == nil ==> STK5(w)
+//@   ensures[C12] w.err == nil ==> STK6(w)
+//@   ensures[C12] w.err == nil ==> STK7(w)
+//@   ensures[C12] old(w.err) != nil ==> w.err == old(w.err)
+//@   ensures[C12] result.w == w
+
+//@ func (*writer).fieldAny
+//@   safety[C12]
+//@   requires WI(w)
+//@   requires w.err == nil ==> STK1(w)
+//@   requires w.err == nil ==> STK2(w)
+//@   requires w.err == nil ==> STK3(w)
+//@   requires w.err == nil ==> STK4(w)
+//@   requires w.err == nil ==> STK5(w)
+//@   requires w.err == nil ==> STK6(w)
+//@   requires w.err == nil ==> STK7(w)
+//@   modifies @WRITER
+//@   modifies @BUF
+//@   ensures[C12] WI(w)
+//@   ensures[C12] w.err == nil ==> STK1(w)
+//@   ensures[C12] w.err == nil ==> STK2(w)
+//@   ensures[C12] w.err == nil ==> STK3(w)
+//@   ensures[C12] w.err == nil ==> STK4(w)
+//@   ensures[C12] w.err == nil ==> STK5(w)
+//@   ensures[C12] w.err == nil ==> STK6(w)
+//@   ensures[C12] w.err == nil ==> STK7(w)
+//@   ensures[C12] STICKY(w, result)
